@@ -147,6 +147,12 @@ async def run_schedule(mode, ops, prefix, rng, events):
     # request ids (state shared between operations becomes observable)
     agent = agent_mod.Agent(DB, users=users, clock=rig.env.Clock())
     agents = {"192.0.2.1": agent, "192.0.2.2": agent}
+    if mode == "v3-fresh-two-step":
+        # RFC 3414 section 4 discovery in two steps: the unauthenticated report reveals
+        # the engine id with boots = time = 0, the real values only come with the
+        # authenticated notInTimeWindow report that answers the first real request
+        agent.two_step_discovery = True
+        agent.boots = 9
     if mode == "v2c":
         clients = [Client("192.0.2.1", rig.credentials_for("v2c"), sender=parker)]
     else:
@@ -318,7 +324,7 @@ def judge(R, case, mode, ops, results, order, agent, clients, events):
         R.violation(dict(case, order=order), "event-loop hygiene: %r" % events[:3], None)
         return False
     watched = ("wrong_digest", "unknown_user", "decrypt_error", "unsupported_level", "not_in_window", "bad_community", "asn_parse_error")
-    if mode == "v3-primed-reboot":
+    if mode in ("v3-primed-reboot", "v3-fresh-two-step"):
         watched = tuple(k for k in watched if k != "not_in_window")
         R.mon["notinwindow_reports_during_concurrency"] += agent.counters.get("not_in_window", 0)
     bad = {k: v for k, v in agent.counters.items() if k in watched and v}
@@ -378,7 +384,7 @@ def explore(R, mode, ops, max_enum, sample_n, seed, clock="stepping", frac=1.0):
 
 def run(R):
     n = N_SETS[R.tier]
-    modes = ("v2c", "v2c", "v3-primed", "v2c", "v3-fresh", "v2c", "v3-two-clients", "v2c", "v3-two-engines", "v2c", "v3-primed-reboot", "v2c")
+    modes = ("v2c", "v2c", "v3-primed", "v2c", "v3-fresh", "v2c", "v3-two-clients", "v2c", "v3-two-engines", "v2c", "v3-primed-reboot", "v2c", "v3-fresh-two-step")
     fixed = [
         ("v2c", ("get", "set")),
         ("v2c", ("get", "walk")),
@@ -414,6 +420,12 @@ def run(R):
                 R.mon["slow_get_during_long_walk"] += 1
             finally:
                 SLOW[0] = None
+    for mode, ops in (("v3-fresh-two-step", ("get", "get")), ("v3-fresh-two-step", ("get", "set", "getnext")), ("v3-fresh-two-step", ("walk9", "get"))):
+        for clock in ("frozen", "stepping"):
+            k += 1
+            if R.mine(k):
+                explore(R, mode, ops, MAX_ENUM[R.tier] // 2, 20, k, clock=clock)
+                R.mon["two_step_discovery_sets"] += 1
     for mode, ops in (("v3-primed", ("get", "get", "get", "set")), ("v3-primed", ("get", "getnext", "get")), ("v2c", ("get", "get", "get", "getnext")), ("v3-fresh", ("get", "get", "get", "get"))):
         k += 1
         if R.mine(k):
